@@ -2,9 +2,11 @@ package vrepo
 
 import (
 	"context"
+	"encoding/json"
 	"fmt"
 	"math/rand"
 	"os"
+	"os/exec"
 	"path/filepath"
 	"sort"
 	"strings"
@@ -422,6 +424,8 @@ func fpClass(line string) string {
 	return strings.SplitN(parts[0], " ", 2)[0]
 }
 
+var gcMu sync.Mutex
+
 func c08states(c *rig.Ctx) {
 	c.Rule("seeded repositories (1-3 tables incl. secondary index / keyless, 4-150 base rows, ~12 branches) are left, through wire sessions of a " +
 		"real sql-server, in the states the statement names — each on its own branch: conflicted merge committed to the working set " +
@@ -592,7 +596,12 @@ func c08states(c *rig.Ctx) {
 			present[name] = ok
 		}
 		_, b0 := dirSize(filepath.Join(dataDir, p.DB, ".dolt", "noms"))
-		if _, err := x.Query(g.call()); err != nil {
+		// One collection at a time per server: the statement quantifies over writers interleaved with *a* collection.
+		// (Concurrent dolt_gc calls on two databases of one server crash the server — see the gc2db sub-command.)
+		gcMu.Lock()
+		_, err = x.Query(g.call())
+		gcMu.Unlock()
+		if err != nil {
 			tl.inc("c08.gc_errors")
 			c.Note(fmt.Sprintf("%s: %s failed: %v", p.DB, g.call(), trunc(err.Error(), 300)))
 			return
@@ -700,14 +709,29 @@ func c08states(c *rig.Ctx) {
 	// phase 3: shutdown, fsck, restart
 	rig.Must(srv.Stop())
 	dbfactory.CloseAllLocalDatabases()
-	for _, rp := range repos {
-		if !rp.ok {
-			continue
+	{
+		// dolt fsck opens the store outside the singleton cache and never closes it, so it runs in a child process
+		var names []string
+		for _, rp := range repos {
+			if rp.ok {
+				names = append(names, rp.plan.DB)
+			}
 		}
-		if rc, out := fsck(dataDir, rp.plan.DB); rc != 0 {
-			viol("c08/fsck", fmt.Sprintf("dolt fsck reports problems after the collections (exit %d): %s", rc, trunc(out, 1500)), witness(rp, nil))
-		} else {
-			tl.inc("c08.fsck_clean")
+		res := fsckChild(c, dataDir, names)
+		for _, rp := range repos {
+			if !rp.ok {
+				continue
+			}
+			r, ok := res[rp.plan.DB]
+			if !ok {
+				c.Note("fsck did not report on " + rp.plan.DB)
+				continue
+			}
+			if r.RC != 0 {
+				viol("c08/fsck", fmt.Sprintf("dolt fsck reports problems after the collections (exit %d): %s", r.RC, trunc(r.Out, 1500)), witness(rp, nil))
+			} else {
+				tl.inc("c08.fsck_clean")
+			}
 		}
 	}
 	dbfactory.CloseAllLocalDatabases()
@@ -904,4 +928,108 @@ func (l *lockedBuf) String() string {
 	l.mu.Lock()
 	defer l.mu.Unlock()
 	return l.b.String()
+}
+
+type fsckResult struct {
+	DB  string `json:"db"`
+	RC  int    `json:"rc"`
+	Out string `json:"out"`
+}
+
+// fsckChild runs `vrepo fsck <dataDir> <db>...` and parses its JSON lines.
+func fsckChild(c *rig.Ctx, dataDir string, dbs []string) map[string]fsckResult {
+	out := map[string]fsckResult{}
+	if len(dbs) == 0 {
+		return out
+	}
+	cmd := exec.Command(rig.Self(), append([]string{"fsck", dataDir}, dbs...)...)
+	cmd.Dir = c.Dir
+	var env []string
+	for _, e := range os.Environ() {
+		if !strings.HasPrefix(e, "VERIF_HOOKS=") && !strings.HasPrefix(e, "GORACE=") {
+			env = append(env, e)
+		}
+	}
+	cmd.Env = env
+	b, err := cmd.Output()
+	if err != nil {
+		c.Note("fsck child: " + err.Error())
+	}
+	for _, line := range strings.Split(string(b), "\n") {
+		if !strings.HasPrefix(line, "FSCK ") {
+			continue
+		}
+		var r fsckResult
+		if json.Unmarshal([]byte(line[5:]), &r) == nil {
+			out[r.DB] = r
+		}
+	}
+	return out
+}
+
+func init() {
+	rig.SubCommands["fsck"] = func(args []string) int {
+		if len(args) < 2 {
+			return 2
+		}
+		for _, db := range args[1:] {
+			rc, o := fsck(args[0], db)
+			b, _ := json.Marshal(fsckResult{DB: db, RC: rc, Out: o})
+			fmt.Printf("\nFSCK %s\n", b)
+		}
+		return 0
+	}
+	// `vrepo gc2db [rounds]`: reproduction of a server crash outside C08's statement: dolt_gc() called concurrently on
+	// two databases of one sql-server (session_aware safepoint controller, the default). The server-wide
+	// GCSafepointController supports one waiter at a time; the second collection's CancelSafepoint / Waiter corrupts
+	// the first one's bookkeeping and a session visit runs after its collection ended:
+	// "panic: ValueStore gcAddChunk called while no GC is ongoing" (or "Attempt to create more than one GCSafepointWaiter").
+	rig.SubCommands["gc2db"] = func(args []string) int {
+		rounds := 200
+		if len(args) > 0 {
+			fmt.Sscan(args[0], &rounds)
+		}
+		dir, err := os.MkdirTemp("/var/tmp", "verif-gc2db-")
+		if err != nil {
+			return 2
+		}
+		defer os.RemoveAll(dir)
+		srv, err := sqlrig.Start(filepath.Join(dir, "data"))
+		if err != nil {
+			fmt.Println(err)
+			return 2
+		}
+		defer srv.Stop()
+		var idle []*sqlrig.Session
+		for _, db := range []string{"ga", "gb"} {
+			x := srv.MustOpen("")
+			if err := script(x, "create database "+db, "use "+db, "create table t (pk int primary key, v varchar(100))", "insert into t values (1,'x')", "call dolt_commit('-Am','c')"); err != nil {
+				fmt.Println(err)
+				return 2
+			}
+			idle = append(idle, x)
+			for k := 0; k < 4; k++ { // idle sessions that have run a command: they are visited by every collection
+				y := srv.MustOpen(db)
+				y.Query("select * from t")
+				idle = append(idle, y)
+			}
+		}
+		var wg sync.WaitGroup
+		for _, db := range []string{"ga", "gb"} {
+			wg.Add(1)
+			go func(db string) {
+				defer wg.Done()
+				x := srv.MustOpen(db)
+				for k := 0; k < rounds; k++ {
+					x.Query(fmt.Sprintf("insert into t values (%d,'y')", 10+k))
+					if _, err := x.Query("call dolt_gc()"); err != nil {
+						fmt.Printf("%s round %d: %v\n", db, k, err)
+					}
+				}
+			}(db)
+		}
+		wg.Wait()
+		fmt.Println("no crash in", rounds, "rounds")
+		return 0
+	}
 }
